@@ -238,6 +238,58 @@ def nargs_fn(text, struct="HorizontalConcatenateNArgs", copy="copy_into"):
         struct, ",\n    ".join(req), ",\n    ".join(ens), b))
 
 
+def vnargs_fn(text, struct="VerticalConcatenateNArgs"):
+    """`for e in &self.e0 { offset += e.copy_into_row_major(&self.out, offset); }` (same K rule as nargs_fn)"""
+    m = vlib.find_code(text, r"impl<T>\s+MechFunctionImpl\s+for\s+%s<T>" % struct)
+    if not m:
+        raise AnchorLost("impl MechFunctionImpl for %s not found" % struct)
+    i = m.end()
+    while text[i] != "{" or text[m.end():i].count("<") != text[m.end():i].count(">"):
+        i += 1
+    sig, body = extract_fn(text[m.start():vlib.match_brace(text, i)], "solve")
+    b = body.strip()
+    if b.startswith("{"):
+        b = b[1:vlib.match_brace(b, 0) - 1]
+    b, n1 = re.subn(r"for\s+e\s+in\s+&self\.e0\s*\{", "for k_ in 0..es.len()\nINV\n{ let e = &es[k_];\nPRE", b)
+    b, n2 = re.subn(r"\be\.(copy_into_row_major)\(\s*&self\.out\s*,\s*offset\s*\)\s*;", r"\1(e, out, offset)?;\nPOST", b)
+    if n1 != 1 or n2 != 1 or "self." in b:
+        raise AnchorLost("%s::solve is no longer `for e in &self.e0 { offset += e.copy_into_row_major(&self.out, offset); }`" % struct)
+    OK = "forall|k: int| 0 <= k < es@.len() ==> (#[trigger] es@[k]).wf() && es@[k].c == out.c && es@[k].r >= 1"
+    inv = ("    invariant out.wf(), out.r == old(out).r, out.c == old(out).c, out.d@.len() == old(out).d@.len(), out.c >= 1,\n"
+           "      out.r == rsum(es@, es@.len() as int), out.d@.len() + out.r <= usize::MAX,\n"
+           "      " + OK + ",\n"
+           "      offset == rsum(es@, k_ as int),\n"
+           "      forall|kk: int, i: int, j: int| 0 <= kk < k_ && 0 <= i < es@[kk].r && 0 <= j < out.c ==> #[trigger] out.at(rsum(es@, kk) + i, j) == #[trigger] es@[kk].at(i, j),")
+    pre = ("proof { lemma_rsum_mono(es@, k_ as int + 1, es@.len() as int); lemma_rsum_mono(es@, 0, k_ as int); assert(out.d@.len() == out.d.len());\n"
+           "        assert((out.c - 1) * out.r + out.r == out.r * out.c) by (nonlinear_arith); }\n let ghost before = out.d@; let ghost bm = *out;")
+    post = ("proof {\n    assert forall|kk: int, i: int, j: int| 0 <= kk < k_ + 1 && 0 <= i < es@[kk].r && 0 <= j < out.c implies #[trigger] out.at(rsum(es@, kk) + i, j) == #[trigger] es@[kk].at(i, j) by {\n"
+            "      lemma_rsum_mono(es@, kk + 1, es@.len() as int); lemma_rsum_mono(es@, 0, kk);\n"
+            "      let pos = rsum(es@, kk) + j * (out.r as int) + i;\n"
+            "      lemma_cm_bound(out.r as int, out.c as int, rsum(es@, kk) + i, j);\n"
+            "      assert(cm(out.r as int, rsum(es@, kk) + i, j) == pos);\n"
+            "      if kk < k_ {\n"
+            "        lemma_rsum_mono(es@, kk + 1, k_ as int);\n"
+            "        assert(bm.at(rsum(es@, kk) + i, j) == es@[kk].at(i, j));\n"
+            "        assert(before[pos] == es@[kk].at(i, j));\n"
+            "        if out.d@[pos] != before[pos] {\n"
+            "          let offm: int = rsum(es@, k_ as int);\n"
+            "          let ek = es@[k_ as int];\n"
+            "          let q = choose|q: int| 0 <= q < ek.d@.len() && #[trigger] rm_pos(offm, ek.r as int, out.r as int, q) == pos;\n"
+            "          assert(ek.d@.len() == (ek.r as int) * (ek.c as int));\n"
+            "          lemma_rm_bound(offm, ek.r as int, ek.c as int, out.r as int, q);\n"
+            "          lemma_cm_inj(out.r as int, rsum(es@, kk) + i, j, offm + q % (ek.r as int), q / (ek.r as int));\n"
+            "        }\n"
+            "      } else {\n"
+            "        assert(out.d@[rsum(es@, k_ as int) + j * (out.r as int) + i] == es@[k_ as int].at(i, j));\n"
+            "      }\n    }\n  }")
+    b = b.replace("INV", inv).replace("PRE", pre).replace("POST", post)
+    req = [OK.replace("out.c", "old(out).c"), "old(out).wf()", "old(out).c >= 1", "old(out).r == rsum(es@, es@.len() as int)", "old(out).d@.len() + old(out).r <= usize::MAX"]
+    ens = ["res.is_some()", "final(out).r == old(out).r", "final(out).c == old(out).c",
+           "forall|kk: int, i: int, j: int| 0 <= kk < es@.len() && 0 <= i < es@[kk].r && 0 <= j < final(out).c ==> #[trigger] final(out).at(rsum(es@, kk) + i, j) == #[trigger] es@[kk].at(i, j)"]
+    return ("fn k_%s(es: &Vec<Mat>, out: &mut Mat) -> (res: Option<()>)\n  requires %s,\n  ensures %s,\n{\n%s\n  Some(())\n}\n" % (
+        struct, ",\n    ".join(req), ",\n    ".join(ens), b))
+
+
 def kernel_items():
     text = vlib.read_repo(CORE)
     items = []
@@ -253,6 +305,7 @@ def kernel_items():
     vt = vlib.read_repo(VERT)
     for struct, n in VCAT.items():
         items.append((struct, vert_fn(vt, struct, n)))
+    items.append(("VerticalConcatenateNArgs", vnargs_fn(vt)))
     for struct, n in VDCAT.items():     # column vectors stacked: the data is the plain concatenation
         items.append((struct, horz_fn(vt, struct, n, block=False)))
     return items
@@ -294,14 +347,15 @@ def add_units(plan, prop="C11"):
         plan.verus.append(u)
     ht, vt = vlib.read_repo(HORZ), vlib.read_repo(VERT)
     jobs = [(s_, n, ht, "h") for s_, n in HCAT.items()] + [(s_, n, vt, "v") for s_, n in VCAT.items()] + [(s_, n, vt, "l") for s_, n in VDCAT.items()] + \
-           [("HorizontalConcatenateNArgs", 0, ht, "n")]
+           [("HorizontalConcatenateNArgs", 0, ht, "n"), ("VerticalConcatenateNArgs", 0, vt, "vn")]
     for struct, n, text, kind in jobs:
         ob = plan.ob("%s.verus.%s" % (prop, struct), "verus", "proved", functions=["%s::solve" % struct],
                      what="%s::solve (checked against the contracts of the copy functions it calls, not their bodies): out is the %s of its %d operands in written order, for every block shape" % (
-                         struct, {"h": "horizontal block matrix", "v": "vertical block matrix", "l": "stacked column vector", "n": "concatenation (any number of operands, loop over the operand vector)"}[kind], n))
+                         struct, {"h": "horizontal block matrix", "v": "vertical block matrix", "l": "stacked column vector", "n": "concatenation (any number of operands, loop over the operand vector)",
+                                                               "vn": "vertical block matrix (any number of operands, loop over the operand vector)"}[kind], n))
         try:
-            fn = vert_fn(text, struct, n) if kind == "v" else nargs_fn(text, struct) if kind == "n" else horz_fn(text, struct, n, block=(kind == "h"))
-            need = "copy_into_row_major" if kind == "v" else ("copy_into" if kind in ("h", "n") else "copy_into_v")
+            fn = vert_fn(text, struct, n) if kind == "v" else nargs_fn(text, struct) if kind == "n" else vnargs_fn(text, struct) if kind == "vn" else horz_fn(text, struct, n, block=(kind == "h"))
+            need = "copy_into_row_major" if kind in ("v", "vn") else ("copy_into" if kind in ("h", "n") else "copy_into_v")
             if need not in callee:
                 raise AnchorLost("callee %s has no contract in this run" % need)
             items = [model, callee[need], fn, vlib.verus_canary("canary_" + struct, "x: u64", [])]
